@@ -87,6 +87,42 @@ Definition decode_region_key (c : ks) (b : list N) : key_res :=
 Definition encode_region_range (c : ks) (s e : list N) : list N * list N :=
   let '(a, b) := encode_range c false s e in (encode_bytes a, encode_bytes b).
 
+(* ---------- DecodeBucketKeys ---------- *)
+Fixpoint map_opt {A B} (f : A -> option B) (l : list A) : option (list B) :=
+  match l with
+  | [] => Some []
+  | x :: r => match f x, map_opt f r with Some y, Some r' => Some (y :: r') | _, _ => None end
+  end.
+(* len(ks) > 0 && len(ks[0]) == 0 *)
+Definition head_is_empty (out : list (list N)) : bool :=
+  match out with [] :: _ => true | _ => false end.
+(* one loop iteration; [first] = (i == 0), [last] = (i == len(keys)-1); [k] is the memcomparable-decoded key *)
+Definition dbk_step (c : ks) (first last : bool) (out : list (list N)) (k : list N) : list (list N) :=
+  if first && lex_ltb k (prefix c) then out ++ [[]]
+  else if last && (nilb k || lex_leb (end_key c) k) then out ++ [[]]
+  else if has_prefix (prefix c) k then
+    let raw := skipn (length (prefix c)) k in
+    if nilb raw && head_is_empty out then out else out ++ [raw]
+  else out.
+Definition nilb_l (r : list (list N)) : bool := match r with [] => true | _ => false end.
+Fixpoint dbk (c : ks) (first : bool) (out : list (list N)) (rest : list (list N)) : list (list N) :=
+  match rest with
+  | [] => out
+  | k :: r => dbk c false (dbk_step c first (nilb_l r) out k) r
+  end.
+Definition decode_bucket_keys (c : ks) (keys : list (list N)) : option (list (list N)) :=
+  match map_opt mem_decode_opt keys with
+  | None => None
+  | Some ks => Some (dbk c true [] ks)
+  end.
+
+(* ---------- ParseKeyspaceID (checkV2Key + the low three bytes) ---------- *)
+Definition parse_keyspace_id (b : list N) : option N :=
+  match b with
+  | m :: b1 :: b2 :: b3 :: _ => if (m =? 114) || (m =? 120) then Some (of_be [0; b1; b2; b3]) else None
+  | _ => None
+  end.
+
 (* ---------- range membership ([] as upper bound = unbounded) ---------- *)
 Definition in_range (s e k : list N) : Prop := lex_le s k /\ (e = [] \/ lex_lt k e).
 Definition in_rangeb (s e k : list N) : bool := lex_leb s k && (nilb e || lex_ltb k e).
